@@ -1,6 +1,6 @@
 #!/bin/sh
 # tools/seed_sweep.sh <first seed> <last seed> [ids...]: run quick checks under several seeds, report anything but OK
-cd /verif 2>/dev/null || cd "$(dirname "$0")/.."
+cd "$(dirname "$0")/.." || exit 2
 A=$1; B=$2; shift 2
 IDS=${*:-C01 C02 C03 C04 C05 C06 C07 C08 C09 C10 C11 C12 C13 C14 C15 C16 C17 C18 C19 C20}
 for s in $(seq $A $B); do for p in $IDS; do
